@@ -60,7 +60,7 @@ def gen_plan(prop, tier, rng, i):
             ln = rng.choice([4100, 5000, 9000])
             ops.append({"op": "w", "rel": pos, "_rel": pos, "len": ln, "salt": k + 1})
             pos += ln
-    plan = {"engine": "crashsim", "cfg": cfg.to_json(), "ops": ops}
+    plan = {"engine": "crashsim", "cfg": cfg.to_json(), "ops": ops, "tmp_in_path": rng.random() < 0.1}
     if prop == "C02":
         plan["kill_frac"] = rng.random() if (i % 3 == 0) else None
         if i % 3 == 1:
@@ -169,10 +169,14 @@ class Tracker:
         return self.attempted
 
 
+_tree_parent = [None]
+
+
 def _mk_tree(tag):
     _counter[0] += 1
     sc = K.new_scratch("%s-%d-%d" % (tag, os.getpid(), _counter[0]))
-    tree = os.path.join(sc, "tree")
+    # (some recordings live below a `mktemp -d` style directory: a path component that starts with "tmp.")
+    tree = os.path.join(sc, _tree_parent[0], "tree") if _tree_parent[0] else os.path.join(sc, "tree")
     os.makedirs(tree)
     return sc, tree
 
@@ -1012,6 +1016,9 @@ def _run_c10(plan, res):
 
 def run_plan(prop, plan):
     res = K.RunResult()
+    _tree_parent[0] = "tmp.Zk3Qx9" if plan.get("tmp_in_path") else None
+    if plan.get("tmp_in_path"):
+        res.probe("tmp_dot_in_channel_path")
     if prop == "C10":
         _run_c10(plan, res)
         return res
